@@ -2729,6 +2729,14 @@ func linOf(v ssa.Value, canon func(ssa.Value) ssa.Value, depth int) linForm {
 				}
 				return r
 			}
+			if cs, ok := constSet(x.X, 0); ok && len(cs) == 1 {
+				l := linOf(x.Y, canon, depth+1)
+				r := linForm{k: l.k * cs[0], cs: map[ssa.Value]int64{}}
+				for v, c := range l.cs {
+					r.cs[v] = c * cs[0]
+				}
+				return r
+			}
 		}
 	}
 	return linForm{cs: map[ssa.Value]int64{canon(v): 1}}
